@@ -86,6 +86,22 @@ add("C18", "NoGoods.tla: every add sequence of <= 3 (thorough: 4) nogoods over 3
     "exhaustively on the model, <= 6 positions sampled on the code. The empty nogood is a listed known finding (F10).",
     "TLA+ transcription of the nogood store model-checked against reference notions; TLC trace validation of recorded store answers", "6/C18")
 
+add("C20", "Both odometers are transcribed as step functions on their private state (Iterators.tla); MC_Iter runs them as machines for all 364 "
+    "vectors of length <= 5 (7455 states): never a wrong or repeated item, exactly the 2^k / 3^k refinements at exhaustion, first item = the vector, "
+    "nothing after the first None, termination under fairness. The real iterators are run on the same 364 vectors and on seeded longer ones; TLC "
+    "judges the raw items (decided positions untouched, handles verbatim, no duplicates, exact count) and compares the emission order with the model (drift).",
+    "Trusted: TLC evaluating spec/Iterators.tla; harness logging the iterators' raw output. Bounded: length <= 5 exhaustively, <= 10 sampled.",
+    "TLA+ state machines of both odometers model-checked (safety + liveness); TLC trace validation of real iterator output", "6/C20")
+
+add("C19", "Frontend.tla models producer, relay and receiver with one action per node creation and per single try_recv of a poll, so producer "
+    "steps fall inside polls: TLC explores every interleaving and every requested handle for streams of 6 nodes (16471 states; thorough 9 nodes) with "
+    "the prefix invariant (relay o c1 = prod, recv o c2 = relay), the found-flag rule, monotonicity and equality at quiescence. Real stores: the real "
+    "producer's messages are forwarded one at a time between real Bdd::recv calls following exhaustive short and seeded long schedules, plus free-running "
+    "threads; TLC validates every observed table against the producer's final table and iterates the model's Begin/Take steps to predict every poll (drift).",
+    "Trusted: TLC evaluating spec/Frontend.tla; crossbeam channel lengths as the count of unconsumed messages. Bounded: <= 9 streamed nodes on the model; "
+    "schedules of length 3 exhaustively and <= 40 sampled on the code; chains of length 2.",
+    "TLA+ model of the streaming chain model-checked over all interleavings; TLC trace validation of scheduled and threaded real runs", "6/C19")
+
 def main():
     hooks = subprocess.run(["git", "-C", "/repo", "log", "--format=%H %s"], stdout=subprocess.PIPE, text=True).stdout.splitlines()
     hook_commits = [l.split()[0] for l in hooks if " verif hook" in l]
